@@ -98,7 +98,7 @@ def replay_point(chk, e, n):
     if tuple(v1.shape) != (2,) and tuple(v1.shape) != (2, 1):
         chk.violation(key + ":psi[1-D]-shape", dict(det, shape=list(v1.shape)))
     # ---- complex wavefunction
-    cx = lattice.complex_state(pt)
+    cx = lattice.complex_state(pt, via_module=(n % 5 == 0))
     key = "complex"
     prob = cx.probability(sp)
     psi = cx.psi(sp)
